@@ -65,6 +65,10 @@ def _names_types(idx):
 
 def invariant(obj, cls, names, types, label, rec, case):
     """The mapping views of obj agree with the ordered name list."""
+    # ordinary use first: printing / logging a frame must not change what
+    # the mapping views report
+    for fn in (repr, str, lambda x: '%r' % (x,), lambda x: format(x)):
+        call(fn, obj)
     cur = []
     for n in names:
         try:
@@ -79,6 +83,7 @@ def invariant(obj, cls, names, types, label, rec, case):
                       % (label, it.describe()), case)
         return False
     pairs = it.value
+    pairs_names = set(names)
     if [p[0] for p in pairs] != list(names) or \
             any(len(p) != 2 for p in pairs):
         rec.violation('iter-names', 'iterating %s yields names %r, expected '
@@ -115,7 +120,10 @@ def invariant(obj, cls, names, types, label, rec, case):
                           case)
             return False
     for bogus in ('nope', '', 'name', 'index', '_' + (names[0] if names
-                                                       else 'x'), 'marshal'):
+                                                       else 'x'), 'marshal',
+                  '__slots__', '__annotations__', '__class__', '__dict__',
+                  '__doc__', 'frame_id', 'validate', 'amqp_type', 'flags',
+                  'synchronous', 'valid_responses', '__module__'):
         if bogus in names:
             continue
         c = call(lambda: bogus in obj)
